@@ -17,7 +17,7 @@ pub struct Ctx {
 pub fn exec_op(op: &str) -> String {
     let args: Vec<&str> = op.split(' ').filter(|s| !s.is_empty()).collect();
     let res = std::panic::catch_unwind(|| {
-        suites::combiner::exec(&args)
+        suites::combiner::exec(&args).or_else(|| suites::header::exec(&args))
     });
     match res {
         Ok(Some(s)) => s,
@@ -74,6 +74,18 @@ fn main() {
             }
         }
         "combiner" => suites::combiner::run(&ctx),
+        "header" => suites::header::run(&ctx),
+        "expand" => {
+            // stdin: requests whose hashes disagreed; output: the individual requests they stand for
+            use std::io::BufRead;
+            for line in std::io::stdin().lock().lines() {
+                let line = line.unwrap();
+                let args: Vec<&str> = line.split(' ').filter(|s| !s.is_empty()).collect();
+                for op in suites::header::expand(&args) {
+                    println!("{}", op);
+                }
+            }
+        }
         _ => {
             eprintln!("unknown suite {}", suite);
             std::process::exit(2);
